@@ -84,4 +84,12 @@ CLAIMS["C03"] = {
     "design_ref": "DESIGN.md §3 C03, Appendix A",
 }
 
+CLAIMS["C15"] = {
+    "technique": "rapid-generated arrival patterns on a virtual clock; all-pairs interval inequality over the forwarding log, head-of-queue identity, discard-only-when-full",
+    "engine": "vclock",
+    "text": "vnet/tbf.go is compiled with time.Now/time.Since redirected to a virtual clock that advances only while the filter goroutine is parked in its select, so every forwarding event has an exact timestamp. For generated rates, bursts, queue sizes, 5..300 arrivals with gaps around the old 100 ms refill threshold and run-time Set(TBFRate|TBFMaxBurst), the oracle checks for all pairs i<=j of forwarding events sum(bytes) <= B + R*(t_j-t_i)/8 (B, R = maxima configured during the interval), that each forwarded chunk is the oldest queued object with unchanged contents, and that a discard happens only when queued bytes + length >= queue size. Exploration only.",
+    "note": "Trusted: goroutine-state barrier (runtime.Stack) that decides when the filter loop is parked; a read-only shim exposes the queue occupancy. Forwarding during Close is not checked.",
+    "design_ref": "DESIGN.md §3 C15",
+}
+
 PENDING_REASON = "check not built yet in this revision of /verif (planned, see DESIGN.md §3); nothing is claimed for it"
